@@ -216,9 +216,20 @@ def oracle(ctx, enc_inputs, dec_inputs, ints):
                 ctx.violation("encode_int silently reduced an integer that does not fit the field (decode_int(encode_int(n)) != n)",
                               {"op": "encint", "n": str(n), "bits": bits, "out": b.hex()})
                 return
-    # JSON header encoding round trip
-    for _ in range(300 if ctx.tier == "quick" else 5000):
-        h = _rand_header(ctx.rng, 3)
+    # JSON header encoding round trip; always present: flat headers whose STRINGS are full of the characters that structure
+    # JSON (a text-level scan must not mistake them for structure), long strings, many members, and honest nesting
+    def nest(depth, leaf, kind):
+        v = leaf
+        for i in range(depth):
+            v = [v] if kind == "list" or (kind == "mixed" and i % 2) else {"n": v}
+        return v
+    fixed = [{"alg": "HS256", "kid": "[" * 70}, {"alg": "HS256", "kid": "{" * 500}, {"alg": "HS256", "note": "{[" * 33}, {"kid": "]" * 100 + "}" * 100},
+             {"kid": "[" * 5000 + "]" * 10}, {"kid": '"' * 50}, {"kid": "\\" * 50}, {"kid": ":," * 100}, {"[[[[": "]]]]", "{{{{": 1}, {"kid": '{"alg":"none"}'},
+             {"kid": '\\"[' * 80}, {"kid": "x" * 100000}, {"kid": "é[" * 3000}, {f"m{i}": i for i in range(500)}, {"crit": ["[" * 65] * 65},
+             {"alg": "HS256", "x": nest(30, "[" * 40, "mixed")}, {"x": nest(64, 1, "list")}, {"x": nest(65, 1, "dict")}, {"x": nest(100, "leaf", "mixed")},
+             {"x": nest(300, None, "list")}, {"x": [nest(20, "{", "dict")] * 20}]
+    for i in range(len(fixed) + (300 if ctx.tier == "quick" else 5000)):
+        h = fixed[i] if i < len(fixed) else _rand_header(ctx.rng, 3)
         try:
             back = util.json_b64decode(util.json_b64encode(h))
         except Exception as ex:  # noqa: BLE001
